@@ -362,6 +362,11 @@ func (pl *Plugin) NominateReservation(ctx context.Context, cycleState fwktype.Cy
 	}
 
 	if len(reservationInfos) == 1 && state.hasAffinity {
+		// the shortcut must not bypass the allocate-once gate of FilterNominateReservation: the matchable index is
+		// only refreshed by reservation events, so an allocate-once reservation that was just allocated is still listed
+		if only := reservationInfos[0]; only.IsAllocateOnce() && only.GetAllocatedPods() > 0 {
+			return nil, nil
+		}
 		return reservationInfos[0], nil
 	}
 
